@@ -59,6 +59,8 @@ def kernel_obligations(mod, stubs, cfg, st, timeout, inline=False):
 
     def setup(ex):
         ex.ovf_mode = 'obligation'
+        # floating point (none in the unchanged kernel) is modelled exactly in the per-configuration twins; havoc in the all-symbolic run
+        ex.fp_exact = cfg['n'] is not None
         sym = lambda nm, v: z3.Int(nm) if v is None else v
         n, d, sc, fc = sym('n', cfg['n']), sym('d', cfg['d']), sym('sc', cfg['sc']), sym('fc', cfg['fc'])
         start, gs = z3.Ints('start gs')
@@ -395,6 +397,7 @@ def main(tier):
     for (n, d) in rate_list:
         for (sc, fc) in cad_list:
             if fc * n < 1000 * d: continue      # fewer than one sample per file: outside the property's configurations
+            if rep.violations and time.time() - t0 > 120: continue      # a replay-confirmed violation is reported already: no need to collect more of them
             cfg = dict(n=n, d=d, sc=sc, fc=fc, tlo=rates.Y1980, thi=rates.Y2100)
             try:
                 res, info, ex = kernel_obligations(mod, stubs, cfg, st, 120)
